@@ -3,6 +3,11 @@ Datasets for the `data …` ops (C01–C04, C14, C18): generator, in-memory veri
 the implementation runner and an independent coordinate-based oracle.
 
 op line:  data <cfg> <inputs> <reqs>      (format documented in lean/VerifModel/Driver/Data.lean)
+
+Field names of an input: obs, fcst, pit, `p@<t>` (stored CDF column of threshold t: one column of the input's 4-D
+threshold_scores array, in the order the names are listed), `q@<q>` (stored quantile column), `e@<k>` (ensemble member
+k = 0, 1, …), any other name = an "other score" field.  The numbers are protocol tokens (common.xr).  Requests name
+the same fields; cfg keys obsfield / fcstfield = Data(obs_field=…, fcst_field=…) (`-obs`, `-fcst`).
 """
 import math
 import random
@@ -41,6 +46,9 @@ def enc_cfg(cfg):
         parts.append("clim=1")
     if cfg.get("div"):
         parts.append("div=1")
+    for k in ("obsfield", "fcstfield"):
+        if cfg.get(k) is not None:
+            parts.append("%s=%s" % (k, cfg[k]))
     return ";".join(parts) if parts else "-"
 
 
@@ -64,6 +72,8 @@ def dec_op(op):
                 cfg["clim"] = True
             elif k == "div":
                 cfg["div"] = v == "1"
+            elif k in ("obsfield", "fcstfield"):
+                cfg[k] = v
     inputs = []
     for s in a[2].split("#"):
         ts, ls, xs, fs = s.split("|")
@@ -78,7 +88,7 @@ def dec_op(op):
     reqs = []
     for r in a[3].split(";"):
         if r and r != "-":
-            f, i, ax, k = r.split("@")
+            f, i, ax, k = r.rsplit("@", 3)          # field names may contain '@' (p@<t>, q@<q>, e@<k>)
             reqs.append((f.split("+"), int(i), ax, None if k == "-" else int(k)))
     return DS(inputs, cfg), reqs
 
@@ -100,17 +110,29 @@ def mem_input(I, name):
     m.times = np.array(I["times"], float)
     m.leadtimes = np.array(I["leads"], float)
     m.locations = [verif.location.Location(l[0], l[1], l[2], l[3]) for l in I["locs"]]
-    m.thresholds = np.array([])
-    m.quantiles = np.array([])
     m.variable = verif.variable.Variable("T", "C")
     f = I["fields"]
+    shape = (len(I["times"]), len(I["leads"]), len(I["locs"]))
     m.obs = np.array(f["obs"], float) if "obs" in f else None
     m.fcst = np.array(f["fcst"], float) if "fcst" in f else None
     m.pit = np.array(f["pit"], float) if "pit" in f else None
-    m.ensemble = None
-    m.threshold_scores = None
-    m.quantile_scores = None
-    m._other = {n: np.array(a, float) for n, a in f.items() if n not in ("obs", "fcst", "pit")}
+    # stored CDF / quantile columns and ensemble members: the 4-D arrays of verif.input.Input, columns in the order
+    # the names are listed.  Nothing stored: None (as the NetCDF reader) or a zero-width array (as the text reader).
+    thr = [(from_xr(n[2:]), a) for n, a in f.items() if n.startswith("p@")]
+    qs = [(from_xr(n[2:]), a) for n, a in f.items() if n.startswith("q@")]
+    mem = sorted(((int(n[2:]), a) for n, a in f.items() if n.startswith("e@")), key=lambda ka: ka[0])
+    assert [k for k, _ in mem] == list(range(len(mem))), "ensemble members must be e@0 … e@(m-1)"
+    # (inputs with none of the three kinds keep None, as before these kinds existed in the encoding)
+    empty = None if (shape[2] % 2 or not (thr or qs or mem)) else np.zeros(shape + (0,), float)
+
+    def stack(cols):
+        return np.stack([np.array(a, float).reshape(shape) for _, a in cols], axis=3) if cols else empty
+    m.thresholds = np.array([t for t, _ in thr], float)
+    m.quantiles = np.array([q for q, _ in qs], float)
+    m.threshold_scores = stack(thr)
+    m.quantile_scores = stack(qs)
+    m.ensemble = stack(mem)
+    m._other = {n: np.array(a, float) for n, a in f.items() if is_other(n)}
     m.other_fields = sorted(m._other)
     # optional probabilistic content (stream metric.multi): stored CDF / quantile columns [(level, 3-D array)] and
     # ensemble members (4-D array, members last); absent keys leave the input as it always was
@@ -123,6 +145,10 @@ def mem_input(I, name):
     if I.get("ens") is not None:
         m.ensemble = np.array(I["ens"], float)
     return m
+
+
+def is_other(name):
+    return name not in ("obs", "fcst", "pit") and name[:2] not in ("p@", "q@", "e@")
 
 
 def build_data(ds):
@@ -158,6 +184,10 @@ def build_data(ds):
     if clim is not None:
         kw["clim"] = clim
         kw["clim_type"] = "divide" if cfg.get("div") else "subtract"
+    if cfg.get("obsfield") is not None:
+        kw["obs_field"] = field_obj(cfg["obsfield"])
+    if cfg.get("fcstfield") is not None:
+        kw["fcst_field"] = field_obj(cfg["fcstfield"])
     given = list(ins)
     data = verif.data.Data(ins, **kw)
     # Data() must leave the list it was handed as it was (the driver and API users build several Data objects from
@@ -186,6 +216,12 @@ def field_obj(name):
         return verif.field.Fcst()
     if name == "pit":
         return verif.field.Pit()
+    if name.startswith("p@"):
+        return verif.field.Threshold(from_xr(name[2:]))
+    if name.startswith("q@"):
+        return verif.field.Quantile(from_xr(name[2:]))
+    if name.startswith("e@"):
+        return verif.field.Ensemble(int(name[2:]))
     return verif.field.Other(name)
 
 
@@ -216,7 +252,15 @@ def impl_data(op):
             data = build_data(ds)
         except SystemExit:
             return "ERR init"
-        return " | ".join([head_of(data)] + [run_req(data, r) for r in reqs])
+        out = [head_of(data)]
+        for r in reqs:
+            out.append(run_req(data, r))
+            if out[-1] == "ERR":
+                # an error exit ends the program: the next request goes to a new Data object (a request that stops
+                # half way leaves the fields of the inputs it got through in the cache, without the cross-input
+                # missing-value step; histories are C18's subject, up to the first error exit)
+                data = build_data(ds)
+        return " | ".join(out)
 
 
 # ------------------------------------------------------------------ independent oracle (coordinates only)
@@ -339,10 +383,37 @@ def slice_cases(dims, ax, k):
     return [(t, l, x) for t in T for l in L for x in X]
 
 
+def field_name(cfg, name):
+    """`-obs FIELD` / `-fcst FIELD`: the stored field that is read as the observation / the forecast"""
+    if name == "obs":
+        return cfg.get("obsfield") or "obs"
+    if name == "fcst":
+        return cfg.get("fcstfield") or "fcst"
+    return name
+
+
+def members_of(I):
+    return len([n for n in I["fields"] if n.startswith("e@")])
+
+
+def outside_domain(ds, name):
+    """requests that are not the subject of the dataset checks: a CDF / quantile column that some input does not store
+    but can DERIVE from its ensemble members (C08's subject).  (An ensemble member that an input does not have is the
+    documented error exit "does not contain", like any other field.)"""
+    n = field_name(ds.cfg, name)
+    if name == "obs":
+        return False        # (the observation path derives nothing: such a field cannot stand in for the observation)
+    if n[:2] in ("p@", "q@"):
+        return any(n not in I["fields"] and members_of(I) > 0 for I in ds.inputs)
+    return False
+
+
 def oracle_answer(ds, dims, req):
     """documented answer of one request (list of vectors), or 'ERR'.
     A case contributes iff every input (and the climatology) has a non-missing value for every field
-    the request effectively uses, the observation is inside -obsrange, and the adjusted values are finite."""
+    the request effectively uses, the observation is inside -obsrange, and the adjusted values are finite.
+    Every field kind is a function of the coordinates (sem): stored CDF / quantile columns and ensemble members are
+    looked up by name in the input that stores them, the observation / forecast are the fields named by -obs / -fcst."""
     f, i, ax, k = req
     cfg = ds.cfg
     clim = ds.inputs[-1] if cfg.get("clim") else None
@@ -354,19 +425,23 @@ def oracle_answer(ds, dims, req):
         return None        # index outside the axis: not part of the documented domain
     do_clim = clim is not None and ("obs" in f or "fcst" in f)
     eff = list(f) + (["fcst"] if do_clim and "fcst" not in f else [])
+    if any(outside_domain(ds, name) for name in eff):
+        return None
     # every input must be able to supply each field (observations may be borrowed)
     for name in eff:
-        have = [name in I["fields"] for I in ds.inputs]
+        have = [field_name(cfg, name) in I["fields"] for I in ds.inputs]
         if name == "obs":
-            if not any(have):
+            # (a stored CDF / quantile column or an ensemble member cannot stand in for the observation)
+            if not any(have) or field_name(cfg, name)[:2] in ("p@", "q@", "e@"):
                 return "ERR"
         elif not all(have):
             return "ERR"
 
     def value(I, name, c):
-        if name == "obs" and "obs" not in I["fields"]:
-            I = next(J for J in ds.inputs if "obs" in J["fields"])
-        return sem(I, name, *c)
+        stored = field_name(cfg, name)
+        if name == "obs" and stored not in I["fields"]:
+            I = next(J for J in ds.inputs if stored in J["fields"])
+        return sem(I, stored, *c)
 
     cols = [[] for _ in f]
     masked = [[] for _ in f]
@@ -385,7 +460,7 @@ def oracle_answer(ds, dims, req):
                 if v < lo or v > hi:
                     ok = False
             if do_clim and name in ("obs", "fcst"):
-                cv = sem(clim, "fcst", *c)
+                cv = sem(clim, field_name(cfg, "fcst"), *c)
                 with np.errstate(all="ignore"):
                     v = float(np.float64(v) / np.float64(cv)) if cfg.get("div") else v - cv
             if math.isnan(v) or math.isinf(v):
@@ -403,7 +478,36 @@ def oracle_answer(ds, dims, req):
 
 
 # ------------------------------------------------------------------ generator
-def gen_dataset(rng, n_inputs=None, with_clim=None, missing=None, big=False):
+THR_POOL = [0.5, 1.0, 2.0]
+Q_POOL = [0.1, 0.5, 0.9]
+
+
+def _stored_sets(rng, pool, total, must=None):
+    """per input the list of stored thresholds / quantile levels (1-3 values): the same list everywhere, the same set in
+    different orders, or different sets per input (rarely none at all)"""
+    base = rng.sample(pool, rng.randint(1, len(pool)))
+    mode = rng.choice(["same", "order", "order", "sets", "sets"])
+    out = []
+    for j in range(total):
+        if mode == "same":
+            sel = list(base)
+        elif mode == "order":
+            sel = list(base)
+            rng.shuffle(sel)
+        else:
+            sel = rng.sample(pool, rng.randint(1, len(pool)))
+            if rng.random() < 0.1 and must is None:
+                sel = []
+        if must is not None and must not in sel:
+            sel.insert(rng.randint(0, len(sel)), must)
+        out.append(sel)
+    return out
+
+
+def gen_dataset(rng, n_inputs=None, with_clim=None, missing=None, big=False, kinds=None, force=()):
+    """kinds: which additional field kinds the dataset may carry (None = chosen at random) out of
+    "pit", "p" (stored CDF columns), "q" (stored quantile columns), "e" (ensemble members), "aux" (an other-score field);
+    force: kinds that every input carries (with the common threshold 1 / quantile level 1/2)"""
     n = n_inputs or rng.choice([1, 2, 2, 3, 4])
     clim = with_clim if with_clim is not None else (rng.random() < 0.3)
     base = 1325376000 + rng.choice([0, 86400 * 59, 86400 * 365])   # 2012-01-01 and around leap day / new year
@@ -426,9 +530,21 @@ def gen_dataset(rng, n_inputs=None, with_clim=None, missing=None, big=False):
     if rng2.random() < 0.12:
         # a station whose elevation is not known (NaN in the file): it lies in no -elevrange
         xpool = [x if i != 2 else x[:3] + (float("nan"),) for i, x in enumerate(xpool)]
+    # the same station with another latitude in the later files (metadata are those of the FIRST file)
+    moved = rng2.randrange(len(xpool)) if rng2.random() < 0.1 else None
     pmiss = missing if missing is not None else rng.choice([0.0, 0.1, 0.3])
     total = n + (1 if clim else 0)
-    extra_field = rng.random() < 0.4
+    # which field kinds beside obs / fcst
+    rng3 = random.Random(rng.random())
+    if kinds is None:
+        kinds = [k for k, pr in (("pit", 0.4), ("p", 0.4), ("q", 0.3), ("e", 0.3), ("aux", 0.35)) if rng3.random() < pr]
+    kinds = set(kinds) | set(force)
+    thr_sets = _stored_sets(rng3, THR_POOL, total, 1.0 if "p" in force else None) if "p" in kinds else [[]] * total
+    q_sets = _stored_sets(rng3, Q_POOL, total, 0.5 if "q" in force else None) if "q" in kinds else [[]] * total
+    nmem = rng3.choice([1, 2, 3]) if "e" in kinds else 0
+    # observations: at least one input stores them (rarely none: the documented error exit "No files have observations")
+    no_obs = rng3.random() < 0.05 and "obs" not in force
+    obs_keeper = rng3.randrange(total)
     inputs = []
     for j in range(total):
         def pick(pool, lo=1, hi=4):
@@ -446,34 +562,60 @@ def gen_dataset(rng, n_inputs=None, with_clim=None, missing=None, big=False):
                 sel.sort()
             return sel
         times, leads, locs = pick(tpool), pick(lpool), pick(xpool)
+        if moved is not None and j >= 1:
+            locs = [x if x[0] != xpool[moved][0] else (x[0], x[1] + 3.0) + x[2:] for x in locs]
         if rng.random() < 0.04 and len(times) > 1:
             times[-1] = times[0]          # repeated coordinate (warning path)
         shape = (len(times), len(leads), len(locs))
         fields = {}
         is_clim = clim and j == total - 1
 
-        def arr(kind):
-            a = np.array([[[rng.choice([0.0, 0.5, 1.0, 1.5, 2.0, 3.0, 4.5, -1.0]) for _ in locs] for _ in leads] for _ in times], float)
-            if kind == "clim" and rng.random() < 0.5:
+        def arr(kind, r=rng):
+            grid = [0.0, 0.25, 0.5, 0.75, 1.0] if kind == "p" else [0.0, 0.5, 1.0, 1.5, 2.0, 3.0, 4.5, -1.0]
+            a = np.array([[[r.choice(grid) for _ in locs] for _ in leads] for _ in times], float)
+            if kind == "clim" and r.random() < 0.5:
                 a[a == 0.0] = 2.0
-            m = np.array([[[rng.random() < pmiss for _ in locs] for _ in leads] for _ in times], bool).reshape(shape)
+            m = np.array([[[r.random() < pmiss for _ in locs] for _ in leads] for _ in times], bool).reshape(shape)
             a[m] = np.nan
-            if rng.random() < 0.08:
-                a[rng.randrange(shape[0]), :, :] = np.nan     # a whole time missing
-            if kind == "fcst" and rng.random() < 0.05:
-                a[rng.randrange(shape[0]), rng.randrange(shape[1]), rng.randrange(shape[2])] = rng.choice([np.inf, -np.inf])
+            if r.random() < 0.08:
+                a[r.randrange(shape[0]), :, :] = np.nan     # a whole time missing
+            if kind in ("fcst", "obs", "pit", "clim") and r.random() < 0.05:
+                # a non-finite stored value (a field of any kind: it is a missing value for every input)
+                a[r.randrange(shape[0]), r.randrange(shape[1]), r.randrange(shape[2])] = r.choice([np.inf, -np.inf])
             return a
-        if not (rng.random() < 0.25 and total > 1) or j == 0:
-            fields["obs"] = arr("obs")
+        has_obs = (j == obs_keeper or rng.random() >= 0.25 or "obs" in force) and not no_obs
+        a_obs = arr("obs")          # (drawn in any case: the rest of the dataset does not depend on who stores observations)
+        if has_obs:
+            fields["obs"] = a_obs
         fields["fcst"] = arr("clim" if is_clim else "fcst")
-        if extra_field:
+        if "pit" in kinds:
             fields["pit"] = np.abs(arr("pit")) / 5.0
+        for t in thr_sets[j]:
+            fields["p@" + xr(t)] = arr("p", rng3)
+        for q in q_sets[j]:
+            fields["q@" + xr(q)] = arr("q", rng3)
+        # ensemble sizes may differ between the inputs (rarely no members at all)
+        m_here = nmem if ("e" in force or rng3.random() < 0.7) else rng3.choice([0, 1, 2, 3])
+        for k in range(m_here):
+            fields["e@%d" % k] = arr("e", rng3)
+        if "aux" in kinds and ("aux" in force or rng3.random() < 0.9):
+            fields["aux"] = arr("aux", rng3)
         inputs.append({"times": times, "leads": leads, "locs": locs, "fields": fields})
     # observations that exist agree between inputs (the situation the property describes)
+    unify(inputs, "obs")
+    cfg = {}
+    if clim:
+        cfg["clim"] = True
+        cfg["div"] = rng.random() < 0.4
+    return DS(inputs, cfg)
+
+
+def unify(inputs, name):
+    """make field `name` agree between the inputs that store it, wherever it is not missing (in place)"""
     ref = {}
     for I in inputs:
-        if "obs" in I["fields"]:
-            a = I["fields"]["obs"]
+        if name in I["fields"]:
+            a = I["fields"][name]
             for it, t in enumerate(I["times"]):
                 for il, l in enumerate(I["leads"]):
                     for ix, x in enumerate(I["locs"]):
@@ -483,11 +625,50 @@ def gen_dataset(rng, n_inputs=None, with_clim=None, missing=None, big=False):
                                 a[it, il, ix] = ref[key]
                             else:
                                 ref[key] = a[it, il, ix]
-    cfg = {}
-    if clim:
-        cfg["clim"] = True
-        cfg["div"] = rng.random() < 0.4
+
+
+def meta_agree(ds):
+    """do the inputs give every station the same latitude / longitude / elevation?"""
+    seen = {}
+    for I in ds.inputs:
+        for x in I["locs"]:
+            if x[0] in seen and not all(a == b or (a != a and b != b) for a, b in zip(seen[x[0]], x[1:])):
+                return False
+            seen.setdefault(x[0], x[1:])
+    return True
+
+
+def add_field_options(ds, rng):
+    """-obs FIELD / -fcst FIELD: an other-score field or the PIT read as the observation (rarely a stored CDF column:
+    error exit), an other-score / PIT / stored CDF or quantile column read as the forecast.  The two never name the
+    same field (the cache of the stored field would be shared between the two readings, see MERGE_NOTES)."""
+    cfg = dict(ds.cfg)
+    names = set(n for I in ds.inputs for n in I["fields"])
+    common = set(n for n in names if all(n in I["fields"] for I in ds.inputs))
+    inputs = ds.inputs
+    ocand = [n for n in ("aux", "pit") if n in names] + [n for n in sorted(names) if n[:2] == "p@" and rng.random() < 0.15][:1]
+    if ocand and rng.random() < 0.5:
+        cfg["obsfield"] = rng.choice(ocand)
+        # what is read as the observation agrees between the inputs that store it
+        inputs = [dict(I, fields={k: np.array(a, float).copy() for k, a in I["fields"].items()}) for I in inputs]
+        unify(inputs, cfg["obsfield"])
+    cand = sorted(n for n in names if n not in ("obs", "fcst", cfg.get("obsfield")) and n[:2] != "e@"
+                  and not outside_domain(ds, n) and (n in common or rng.random() < 0.2))
+    if cand and (rng.random() < 0.6 or "obsfield" not in cfg):
+        cfg["fcstfield"] = rng.choice(cand)
     return DS(inputs, cfg)
+
+
+def request_fields(ds):
+    """(names every input stores, names only some inputs store) that a request may name beside obs / fcst"""
+    names = []
+    for I in ds.inputs:
+        for n in I["fields"]:
+            if n not in ("obs", "fcst") and n not in names and n != ds.cfg.get("obsfield"):
+                names.append(n)
+    names = [n for n in sorted(names) if not outside_domain(ds, n)]
+    common = [n for n in names if all(n in I["fields"] for I in ds.inputs)]
+    return common, [n for n in names if n not in common]
 
 
 def all_requests(ds, data_dims, rng, max_reqs=40):
@@ -495,8 +676,11 @@ def all_requests(ds, data_dims, rng, max_reqs=40):
     times, leads, locs = data_dims
     n = len(ds.inputs) - (1 if ds.cfg.get("clim") else 0)
     combos = [["obs"], ["fcst"], ["obs", "fcst"], ["fcst", "obs"]]
-    if all("pit" in I["fields"] for I in ds.inputs):
-        combos += [["pit"], ["obs", "pit"], ["obs", "fcst", "pit"]]
+    common, partial = request_fields(ds)
+    for x in common:
+        combos += [[x], ["obs", x]] + ([["obs", "fcst", x]] if x == "pit" or rng.random() < 0.5 else [[x, "fcst"]])
+    if len(common) > 1:
+        combos.append(rng.sample(common, 2))
     reqs = []
     sizes = {"time": len(times), "leadtime": len(leads), "location": len(locs), "lat": len(locs),
              "lon": len(locs), "elev": len(locs),
@@ -511,13 +695,18 @@ def all_requests(ds, data_dims, rng, max_reqs=40):
                 for k in range(sizes[ax]):
                     reqs.append((f, i, ax, k))
     rng.shuffle(reqs)
-    return reqs[:max_reqs]
+    reqs = reqs[:max_reqs]
+    # fields that some input does not store: the error exit (a few requests only)
+    for x in partial[:3]:
+        reqs[rng.randrange(len(reqs) + 1):0] = [(rng.choice([[x], ["fcst", x]]), rng.randrange(n), rng.choice(AXES_POOLED), None)]
+    return reqs[:max(max_reqs, 1)]
 
 
 # ------------------------------------------------------------------ non-interference (metamorphic, implementation only)
 def impl_noninterference(op):
     """datani op: same encoding as data; the request list is evaluated on the dataset and on a copy in which
-    every finite forecast value of every OTHER scored input is changed; replies must coincide."""
+    every finite value of every field except the observations (forecast, PIT, stored CDF / quantile columns, ensemble
+    members, other scores) of every OTHER scored input is changed; replies must coincide."""
     ds, reqs = dec_op(op)
     with warnings.catch_warnings():
         warnings.simplefilter("ignore")
@@ -530,13 +719,16 @@ def impl_noninterference(op):
         for r in reqs:
             a0 = run_req(d0, r)
             ins2 = []
+            keep = field_name(ds.cfg, "obs")        # observations are shared between the inputs: not perturbed
             for j, I in enumerate(ds.inputs):
                 if j != r[1] and j < n:
                     f2 = dict(I["fields"])
-                    a = np.array(f2["fcst"], float).copy()
-                    fin = np.isfinite(a)
-                    a[fin] = a[fin] * 3 + 0.25
-                    f2["fcst"] = a
+                    for name in f2:
+                        if name != keep:            # forecasts, PIT, stored CDF / quantile columns, members, other scores
+                            a = np.array(f2[name], float).copy()
+                            fin = np.isfinite(a)
+                            a[fin] = a[fin] * 3 + 0.25
+                            f2[name] = a
                     ins2.append(dict(I, fields=f2))
                 else:
                     ins2.append(I)
@@ -557,10 +749,15 @@ def permuted(ds, rng, rotate=True):
         pl = list(range(len(I["leads"])))
         px = list(range(len(I["locs"])))
         rng.shuffle(pt), rng.shuffle(pl), rng.shuffle(px)
-        fields = {k: np.array(a, float)[pt][:, pl][:, :, px] for k, a in I["fields"].items()}
+        names = list(I["fields"])
+        rng.shuffle(names)          # the order of the stored CDF / quantile columns in the input's 4-D arrays
+        names = [k for k in names if k[:2] != "e@"] + sorted(k for k in names if k[:2] == "e@")
+        fields = {k: np.array(I["fields"][k], float)[pt][:, pl][:, :, px] for k in names}
         ins.append({"times": [I["times"][i] for i in pt], "leads": [I["leads"][i] for i in pl],
                     "locs": [I["locs"][i] for i in px], "fields": fields})
-    shift = rng.randrange(n) if (rotate and n > 1) else 0
+    # (location metadata are those of the first file: with conflicting metadata the file order is not free)
+    free = meta_agree(ds) or not any(ds.cfg.get(k) is not None for k in ("lat", "lon", "elev"))
+    shift = rng.randrange(n) if (rotate and n > 1 and free) else 0
     scored = ins[:n]
     scored = scored[shift:] + scored[:shift]
     mapping = {i: (i - shift) % n for i in range(n)}
@@ -601,6 +798,10 @@ def impl_perm(op):
         for r in reqs:
             a0 = run_req(d0, r)
             a1 = run_req(d1, (r[0], mapping[r[1]], r[2], r[3]))
+            if a0 == "ERR":
+                d0 = build_data(ds)          # (an error exit ends the program, see impl_data)
+            if a1 == "ERR":
+                d1 = build_data(v)
             out.append("same" if a0 == a1 else "diff[%s@%d@%s@%s: %s -> %s]" % ("+".join(r[0]), r[1], r[2], r[3], a0[:80], a1[:80]))
         return "same" if all(o == "same" for o in out) else ";".join(o for o in out if o != "same")
 
@@ -608,7 +809,14 @@ def impl_perm(op):
 def write_text(I, path, rng):
     """one input as a verif text file: columns and rows in random order, random missing tokens"""
     cols = ["unixtime" if rng.random() < 0.5 else "date", "leadtime", "location", "lat", "lon", "altitude"]
-    dcols = [n for n in ("obs", "fcst") if n in I["fields"]]
+    dcols = list(I["fields"])          # obs, fcst, pit, p<t>, q<q>, e<k>, other scores
+
+    def header(n):
+        if n[:2] in ("p@", "q@"):
+            return n[0] + repr(from_xr(n[2:]))
+        if n[:2] == "e@":
+            return "e" + n[2:]
+        return n
     if cols[0] == "date":
         cols.insert(1, "hour")
     order = cols + dcols
@@ -637,7 +845,7 @@ def write_text(I, path, rng):
     rng.shuffle(rows)
     with open(path, "w") as f:
         f.write("# variable: T\n# units: C\n")
-        f.write(" ".join(order) + "\n")
+        f.write(" ".join(header(c) for c in order) + "\n")
         f.write("\n".join(rows) + "\n")
 
 
@@ -664,7 +872,12 @@ def impl_text(op):
                 data = verif.data.Data(ins)
             except SystemExit:
                 return "ERR init"
-            return " | ".join([head_of(data)] + [run_req(data, r) for r in reqs])
+            out = [head_of(data)]
+            for r in reqs:
+                out.append(run_req(data, r))
+                if out[-1] == "ERR":
+                    data = verif.data.Data(ins)          # (an error exit ends the program, see impl_data)
+            return " | ".join(out)
     finally:
         shutil.rmtree(d, ignore_errors=True)
 
@@ -737,8 +950,11 @@ def impl_hist(op):
             data = build_data(ds)
         except SystemExit:
             return "ERR init"
-        snapshot = [[np.array(getattr(I, n), float).copy() for n in ("obs", "fcst", "pit") if getattr(I, n) is not None]
-                    for I in data._inputs]
+        def arrays_of(I):
+            out = [getattr(I, n) for n in ("obs", "fcst", "pit", "threshold_scores", "quantile_scores", "ensemble")]
+            out += [I._other[n] for n in sorted(getattr(I, "_other", {}))]
+            return [np.array(a, float) for a in out if a is not None]
+        snapshot = [[a.copy() for a in arrays_of(I)] for I in data._inputs]
         out, returned, flags = [], [], []
         for k, r in enumerate(reqs):
             f, i, ax, idx = r
@@ -761,8 +977,7 @@ def impl_hist(op):
             fresh = run_req(build_data(ds), r)
             if fresh != out[k]:
                 flags.append("HISTORY@%d[%s vs fresh %s]" % (k, out[k][:60], fresh[:60]))
-        after = [[np.array(getattr(I, n), float) for n in ("obs", "fcst", "pit") if getattr(I, n) is not None]
-                 for I in data._inputs]
+        after = [arrays_of(I) for I in data._inputs]
         for a, b in zip(snapshot, after):
             for x, y in zip(a, b):
                 if not np.array_equal(x, y, equal_nan=True):
@@ -832,11 +1047,16 @@ def impl_clim_extra(op):
             for ax in ("no", "leadtime", "location"):
                 axis = verif.axis.get(ax)
                 for i in range(n):
-                    try:
-                        a = m.compute(d_clim, i, axis, None)
-                        b = m.compute(d_extra, i, axis, None)
-                    except SystemExit:
-                        out.append("diff[%s %s error]" % (mname, ax))
+                    def run(d):
+                        try:
+                            return m.compute(d, i, axis, None)
+                        except SystemExit:
+                            return None
+                    a, b = run(d_clim), run(d_extra)
+                    if a is None or b is None:
+                        # (both stop with an error message when no file has observations)
+                        if (a is None) != (b is None):
+                            out.append("diff[%s %s error exit with %s only]" % (mname, ax, "-c" if a is None else "the extra input"))
                         continue
                     if not np.allclose(a, b, rtol=1e-9, atol=1e-12, equal_nan=True):
                         out.append("diff[%s -x %s input %d: -c gives %s, extra input gives %s]" % (mname, ax, i, list(a), list(b)))
